@@ -1,9 +1,10 @@
 #!/bin/bash
 # Every stored behaviour-preserving refactoring (/verif/refactors/*/refactor_*.diff, written by independent
 # sub-agents who saw nothing of /verif and confirmed the full suite passes) must leave every obligation silent.
+# So must the refactoring half (refactor_only.diff) of every round-8 seed (a refactoring with a bug hidden in it).
 # Each patch is applied to /repo and undone straight afterwards.
 rc=0
-for d in /verif/refactors/*/refactor_*.diff; do
+for d in /verif/refactors/*/refactor_*.diff /verif/seeded/*/refactor_only.diff; do
   out=$(/verif/seedtest.sh "$d" 2>&1)
   name=$(basename $(dirname $d))/$(basename $d)
   if echo "$out" | grep -q "does not compile\|does not apply\|local changes"; then echo "ERROR    $name: $(echo "$out" | head -2 | tr '\n' ' ')"; rc=1; continue; fi
